@@ -21,6 +21,7 @@ type Transfer struct {
 	TsigProvider   TsigProvider      // An implementation of the TsigProvider interface. If defined it replaces TsigSecret and is used for all TSIG operations.
 	TsigSecret     map[string]string // Secret(s) for Tsig map[<zonename>]<base64 secret>, zonename must be in canonical form (lowercase, fqdn, see RFC 4034 Section 6.2)
 	tsigTimersOnly bool
+	tsigKeyName    string      // owner of the TSIG the last written message was signed with
 	TLS            *tls.Config // TLS config. If Xfr over TLS will be attempted
 }
 
@@ -263,6 +264,11 @@ func (t *Transfer) ReadMsg() (*Msg, error) {
 		err = TsigVerifyWithProvider(p, tp, t.tsigRequestMAC, t.tsigTimersOnly)
 		if ts := m.IsTsig(); ts != nil {
 			t.tsigRequestMAC = ts.MAC
+			// An answer has to be signed with the key of the request, not with
+			// any key the provider happens to know (RFC 8945, section 5.3.1).
+			if err == nil && t.tsigKeyName != "" && !equal(ts.Hdr.Name, t.tsigKeyName) {
+				err = ErrKey
+			}
 		}
 	}
 	return m, err
@@ -271,7 +277,9 @@ func (t *Transfer) ReadMsg() (*Msg, error) {
 // WriteMsg writes a message through the transfer connection t.
 func (t *Transfer) WriteMsg(m *Msg) (err error) {
 	var out []byte
+	t.tsigKeyName = ""
 	if ts, tp := m.IsTsig(), t.tsigProvider(); ts != nil && tp != nil {
+		t.tsigKeyName = ts.Hdr.Name
 		out, t.tsigRequestMAC, err = TsigGenerateWithProvider(m, tp, t.tsigRequestMAC, t.tsigTimersOnly)
 	} else {
 		out, err = m.Pack()
